@@ -217,7 +217,7 @@ func TestC17(t *testing.T) {
 	})
 
 	// (b) generated dictionary sets loaded in every order; monotonicity
-	rec.Suite("generated-sets", rec.N(150, 6000), func(c *ev.Case) { generatedSet(c) })
+	rec.Suite("generated-sets", rec.N(150, 60000), func(c *ev.Case) { generatedSet(c) })
 
 	// (c) every type name the parser accepts: encode through the API, decode through ReadMessage
 	names := make([]string, 0, len(datatype.Available))
